@@ -1,0 +1,33 @@
+//go:build verif
+
+package panos
+
+// Exports for the verification harness of property C20. Added file only.
+
+import "fmt"
+
+// VerifC20Merge parses Netspoc and raw config, merges both and returns
+// "devices/entries/vsys" counts of the result or the parse error.
+func VerifC20Merge(spoc, raw []byte) string {
+	s := &State{}
+	c1, err := s.ParseConfig(spoc, "router")
+	if err != nil {
+		return "router: " + err.Error()
+	}
+	c2, err := s.ParseConfig(raw, "router.raw")
+	if err != nil {
+		return "raw: " + err.Error()
+	}
+	p := c1.MergeSpoc(c2).(*PanConfig)
+	if p.Devices == nil {
+		return "nil"
+	}
+	r := fmt.Sprintf("%d", len(p.Devices.Entries))
+	for _, d := range p.Devices.Entries {
+		r += fmt.Sprintf("/%d", len(d.Vsys))
+		for _, v := range d.Vsys {
+			r += fmt.Sprintf(":%s=%d", v.Name, len(v.Rules))
+		}
+	}
+	return r
+}
